@@ -53,6 +53,10 @@ def parse_diags(stderr):
         m = re.match(r'^\s*(-->|:::) (.*?):(\d+):(\d+)', line)
         if m:
             cur['locs'].append((int(m.group(3)), int(m.group(4))))
+            continue
+        m = re.match(r'^\s*(\d+) [|/ ]', line)
+        if m and cur['locs']:
+            cur['gutter'] = cur.get('gutter', []) + [int(m.group(1))]
     if cur: diags.append(cur)
     return diags
 
@@ -112,6 +116,7 @@ def run_unit(name, rlimit=None, extra_args=(), seed=None, keep=True):
     for d in diags:
         cls, kind = classify(d['msg'] + ' ' + d['text'])
         origins = [gen.origin_of(u, l, c) for (l, c) in d['locs']]
+        origins += [gen.origin_of(u, l, 1) for l in d.get('gutter', []) if (l, 1) not in d['locs']][:8]
         owner = None
         for o, fn in origins:
             if fn is not None and not fn['stub']:
@@ -119,10 +124,11 @@ def run_unit(name, rlimit=None, extra_args=(), seed=None, keep=True):
         primary = origins[0][0] if origins else '?'
         if 'fn verif_canary' in d['text']:
             canary_failed = True; continue
-        name_ = '%s/%s/%s@%s' % (name, owner['name'] if owner else 'spec', kind, primary)
+        oname = (owner['name'] + ('<%s>' % owner['impl'] if owner.get('impl') else '')) if owner else 'spec'
+        name_ = '%s/%s/%s@%s' % (name, oname, kind, primary)
         res['failures'].append({'obligation': name_, 'class': cls, 'kind': kind, 'function': owner['name'] if owner else None,
                                 'fn_path': owner['path'] if owner else None, 'msg': d['msg'], 'text': d['text'][:3000],
-                                'origins': [o for o, _ in origins]})
+                                'origins': [o for o, _ in origins][:len(d['locs'])]})
     res['canary_failed'] = canary_failed
     res['has_canary'] = u.has_canary
     if u.has_canary:
